@@ -1170,6 +1170,17 @@ def transport_session(ctx, compression, cipher=None, mac=None, rekey=False, repl
                         if not x:
                             break
                         n += len(x)
+                    if n != 220:
+                        raise RuntimeError("channel data sent after the key change was lost (%d of 220 bytes)" % n)
+                    sch.sendall(b"reply-after-rekey")
+                    back2 = b""
+                    while len(back2) < 17:
+                        x = ch.recv(100)
+                        if not x:
+                            break
+                        back2 += x
+                    if back2 != b"reply-after-rekey":
+                        raise RuntimeError("server->client data after the key change was lost")
                     res["steps"].append("data2")
             return True
 
